@@ -536,6 +536,7 @@ class Exec:
             raise Unsupported("%s.%s" % (b.name, attr), node)
         if isinstance(b, Obj):
             if attr in b.f: return b.f[attr]
+            if b.cls == 'Design^T' and attr == 'T': return Obj('Design', dict(cols=b.f['rows']))
             if b.cls in s.src.classes:
                 m = s.src.method(b.cls, attr)
                 if m is not None:
@@ -969,6 +970,7 @@ def flatten(v):
 # ================================================================================================ builtins / numpy
 def _vecmap(f):
     def g(s, x, *rest):
+        if isinstance(x, Seq): return Seq(x.n, lambda i, x=x: f(s, x.fn(i), *rest))
         if isinstance(x, Vec): return Vec([f(s, v, *rest) for v in x.xs])
         if isinstance(x, PList): return Vec([f(s, v, *rest) for v in x.items])
         if isinstance(x, (tuple, list)): return Vec([f(s, v, *rest) for v in x])
@@ -1001,8 +1003,23 @@ def _as_vec(x):
 
 
 def _np_bin(opcls):
-    def g(s, a, b): return s.binop(opcls(), _as_vec(a), _as_vec(b))
+    def g(s, a, b):
+        if isinstance(a, Seq) or isinstance(b, Seq):
+            n = a.n if isinstance(a, Seq) else b.n
+            fa = a.fn if isinstance(a, Seq) else (lambda i, a=a: a)
+            fb = b.fn if isinstance(b, Seq) else (lambda i, b=b: b)
+            if not (isinstance(a, Seq) or is_num(a)) or not (isinstance(b, Seq) or is_num(b)): raise Unsupported("numpy element-wise op on a symbolic-length list and %r" % (b,))
+            return Seq(n, lambda i: s.binop(opcls(), fa(i), fb(i)))
+        return s.binop(opcls(), _as_vec(a), _as_vec(b))
     return g
+
+
+def _np_ones(s, n): return Seq(lift(n), lambda i: lift(1)) if not isinstance(n, int) else Vec([lift(1)] * n)
+
+
+def _np_vstack(s, rows):
+    rows = rows.items if isinstance(rows, PList) else list(rows)
+    return Obj('Design^T', dict(rows=rows))
 
 
 def _np_power(s, x, n):
@@ -1033,7 +1050,7 @@ def _ext(name):
 
 NUMPY = {'exp': _vecmap(_exp1), 'log': _vecmap(_log1), 'sqrt': _vecmap(_sqrt1), 'array': _np_array,
          'multiply': _np_bin(ast.Mult), 'subtract': _np_bin(ast.Sub), 'divide': _np_bin(ast.Div), 'add': _np_bin(ast.Add),
-         'power': _np_power, 'sum': _np_sum}
+         'power': _np_power, 'sum': _np_sum, 'ones': _np_ones, 'vstack': _np_vstack}
 
 
 def _len(s, x):
@@ -1144,6 +1161,13 @@ def _copy(s, x):
 
 
 def _filter(s, f, xs):
+    if isinstance(xs, PList):
+        out = []
+        for v in xs.items:
+            t = s.truth(s.apply(f, [v], {}))
+            if not isinstance(t, bool): raise Unsupported("filter with a symbolic predicate")
+            if t: out.append(v)
+        return out
     c = s.contracts.get('filter()')
     if c is not None: return c(s, dict(args=[f, xs], kwargs={}))
     raise Unsupported("filter without an assumed contract")
